@@ -23,7 +23,19 @@
 #define MM (1L<<30)                 /* the modulus */
 #define mod_diff(x,y) (((x)-(y))&(MM-1)) /* subtraction mod MM */
 
-long ran_x[KK];                    /* the generator state */
+/* Modification by the MultiMarkdown project: the generator state is per thread, so that
+   conversions running on different threads do not share (and race on) it. */
+#if defined(__STDC_VERSION__) && (__STDC_VERSION__ >= 201112L) && !defined(__STDC_NO_THREADS__)
+	#define RAN_THREAD_LOCAL _Thread_local
+#elif defined(_MSC_VER)
+	#define RAN_THREAD_LOCAL __declspec(thread)
+#elif defined(__GNUC__) || defined(__clang__)
+	#define RAN_THREAD_LOCAL __thread
+#else
+	#define RAN_THREAD_LOCAL
+#endif
+
+RAN_THREAD_LOCAL long ran_x[KK];                    /* the generator state */
 
 #ifdef __STDC__
 	void ran_array(long aa[], int n)
@@ -56,9 +68,10 @@ long ran_x[KK];                    /* the generator state */
 /* after calling ran_start, get new randoms by, e.g., "x=ran_arr_next()" */
 
 #define QUALITY 1009 /* recommended quality level for high-res use */
-long ran_arr_buf[QUALITY];
-long ran_arr_dummy = -1, ran_arr_started = -1;
-long * ran_arr_ptr = &ran_arr_dummy; /* the next random number, or -1 */
+RAN_THREAD_LOCAL long ran_arr_buf[QUALITY];
+RAN_THREAD_LOCAL long ran_arr_dummy = -1, ran_arr_started = -1;
+/* The address of a thread-local object is not a constant expression: 0 stands for &ran_arr_dummy */
+RAN_THREAD_LOCAL long * ran_arr_ptr = 0; /* the next random number, or -1 */
 
 #define TT  70   /* guaranteed separation between streams */
 #define is_odd(x)  ((x)&1)          /* units bit of x */
@@ -169,6 +182,10 @@ static int main() {
 
 
 long ran_num_next(void) {
+	if (ran_arr_ptr == 0) {
+		ran_arr_ptr = &ran_arr_dummy;
+	}
+
 	return ran_arr_next();
 }
 
